@@ -410,7 +410,7 @@ impl C17 {
 
 /// Supplemental tick arrays (v2): the same route with up to three extra arrays per pool in the remaining accounts must
 /// give exactly the same result as without them (each leg accepts them as a single swap).
-fn supplemental_lists(v_ix: &rt::Ix, pre: &Ledger, post: &Ledger, salt: u64, idx: usize, cov: &mut Coverage, out: &mut Vec<Violation>) {
+pub fn supplemental_lists(v_ix: &rt::Ix, pre: &Ledger, post: &Ledger, salt: u64, idx: usize, cov: &mut Coverage, out: &mut Vec<Violation>) {
     let Some(c) = wpix::decode(v_ix) else { return };
     if c.name() != "two_hop_swap_v2" || v_ix.data.last() != Some(&0) || !c.remaining().is_empty() {
         return;
